@@ -82,6 +82,58 @@ func CreateConsensusRawMessage(message ConsensusMessage) *ConsensusRawMessage {
 	return rawMessage
 }
 
+// touchContent reads every field of every nested part once (in time linear in the size of the content), so that
+// malformed content panics here, under the recover of ToConsensusMessage, and not later inside a handler.
+func touchContent(content *protocol.LeanhelixContent) {
+	touchBlockRef := func(ref *protocol.BlockRef) {
+		if ref != nil && len(ref.Raw()) > 0 {
+			_, _, _, _, _ = ref.MessageType(), ref.InstanceId(), ref.BlockHeight(), ref.View(), ref.BlockHash()
+		}
+	}
+	touchSender := func(sender *protocol.SenderSignature) {
+		if sender != nil && len(sender.Raw()) > 0 {
+			_, _ = sender.MemberId(), sender.Signature()
+		}
+	}
+	touchVote := func(vote *protocol.ViewChangeMessageContent) {
+		header := vote.SignedHeader()
+		_, _, _, _ = header.MessageType(), header.InstanceId(), header.BlockHeight(), header.View()
+		if proof := header.PreparedProof(); proof != nil && len(proof.Raw()) > 0 {
+			touchBlockRef(proof.PreprepareBlockRef())
+			touchSender(proof.PreprepareSender())
+			touchBlockRef(proof.PrepareBlockRef())
+			for it := proof.PrepareSendersIterator(); it.HasNext(); {
+				touchSender(it.NextPrepareSenders())
+			}
+		}
+		touchSender(vote.Sender())
+	}
+	switch {
+	case content.IsMessagePreprepareMessage():
+		touchBlockRef(content.PreprepareMessage().SignedHeader())
+		touchSender(content.PreprepareMessage().Sender())
+	case content.IsMessagePrepareMessage():
+		touchBlockRef(content.PrepareMessage().SignedHeader())
+		touchSender(content.PrepareMessage().Sender())
+	case content.IsMessageCommitMessage():
+		touchBlockRef(content.CommitMessage().SignedHeader())
+		touchSender(content.CommitMessage().Sender())
+		_ = content.CommitMessage().Share()
+	case content.IsMessageViewChangeMessage():
+		touchVote(content.ViewChangeMessage())
+	case content.IsMessageNewViewMessage():
+		newView := content.NewViewMessage()
+		header := newView.SignedHeader()
+		_, _, _, _ = header.MessageType(), header.InstanceId(), header.BlockHeight(), header.View()
+		for it := header.ViewChangeConfirmationsIterator(); it.HasNext(); {
+			touchVote(it.NextViewChangeConfirmations())
+		}
+		touchSender(newView.Sender())
+		touchBlockRef(newView.Message().SignedHeader())
+		touchSender(newView.Message().Sender())
+	}
+}
+
 func ToConsensusMessage(consensusMessage *ConsensusRawMessage) (message ConsensusMessage) {
 	// content with length fields that point outside the buffer (or wrap around) makes the lazily parsing
 	// accessors panic; such content is not a message
@@ -91,7 +143,7 @@ func ToConsensusMessage(consensusMessage *ConsensusRawMessage) (message Consensu
 		}
 	}()
 	lhContentReader := protocol.LeanhelixContentReader(consensusMessage.Content)
-	_ = lhContentReader.String() // walk every nested field now rather than inside a handler
+	touchContent(lhContentReader) // read every nested field now rather than inside a handler
 
 	if lhContentReader.IsMessagePreprepareMessage() {
 		message = &PreprepareMessage{
